@@ -36,7 +36,7 @@ func takeN(q col.QueueLike[int], n int) []int {
 	}()
 	select {
 	case <-done:
-	case <-time.After(2 * time.Second):
+	case <-time.After(20 * time.Second):
 	}
 	mu.Lock()
 	defer mu.Unlock()
